@@ -1,6 +1,6 @@
 (* C20 - the heapq algorithm of Model.v (Section Heap): multiset and heap-order theorems,
    generic in the comparator [lt]. *)
-From Coq Require Import ZArith List Bool Arith Lia Permutation ZifyBool.
+From Coq Require Import ZArith List Bool Arith Lia Permutation ZifyBool ZifyNat.
 Import ListNotations.
 Require Import MV.C20.Model MV.C20.Proofs_Base.
 Ltac Zify.zify_post_hook ::= Z.to_euclidean_division_equations.
@@ -300,15 +300,15 @@ Section HeapProofs.
     intros H. unfold Model.heappop. destruct (rev h) as [|lastelt rt] eqn:E; [discriminate|].
     assert (Eh : h = rev rt ++ [lastelt]).
     { rewrite <- (rev_involutive h), E. reflexivity. }
-    destruct (rev rt) as [|first tl] eqn:Er; intros G; inversion G; subst; clear G.
+    destruct (rev rt) as [|first tl] eqn:Er; intros G; injection G as <- <-.
     - apply heap_ok_nil.
     - apply siftup_ok; [simpl; lia|].
       cbn [upd]. intros i Hi Hp. simpl in Hi.
-      specialize (H i). rewrite app_length in H. simpl in H.
-      assert (Hi0 : i <> 0) by lia. assert (Hp0 : (i - 1) / 2 <> 0) by exact Hp.
+      assert (N : forall (a : item) t k, 0 < k -> nth k (a :: t) dummy = nth (k - 1) t dummy).
+      { intros a t [|k] Hk; [lia|]. simpl. rewrite Nat.sub_0_r. reflexivity. }
+      subst h. specialize (H i). rewrite app_length in H; cbn [length] in H.
       change ((first :: tl) ++ [lastelt]) with (first :: (tl ++ [lastelt])) in H.
-      destruct i as [|i]; [lia|]. destruct ((S i - 1) / 2) as [|p] eqn:Ep; [lia|].
-      simpl in H |- *. rewrite !app_nth1 in H by lia. apply H. lia.
+      rewrite !N in H |- * by lia. rewrite !app_nth1 in H by lia. apply H. lia.
   Qed.
 
   Lemma heappop_min h x h' :
